@@ -16,8 +16,8 @@ class C09(Prop):
     id = "C09"
     title = "No event history or failing task takes the driver down"
     lean_modules = ["NV.C09.Props", "NV.C09.Witness"]
-    theorems = ["NV.C09.judge_crash_clause", "NV.C09.judge_report_clause", "NV.C09.judge_exit_present",
-                "NV.C09.runFull_trext", "NV.C09.backend_total", "NV.C09.backend_total_prefix", "NV.C09.freed_conn_never_used_run",
+    theorems = ["NV.C09.judge_crash_clause", "NV.C09.judge_report_clause", "NV.C09.judge_exit_present", "NV.C09.judge_cycles_clause", "NV.C09.runFull_block",
+                "NV.C09.backend_total", "NV.C09.backend_total_prefix", "NV.C09.freed_conn_never_used_run",
                 "NV.C09.hooks_keep_invariant", "NV.C09.runHook_ok", "NV.C09.errorHandler_same", "NV.C09.cmh_flags",
                 "NV.C09.only_failing_hb_removed", "NV.C09.error_keeps_other_heart_beats",
                 "NV.C09.flags_clear_after_error", "NV.C09.pending_tasks_preserved",
